@@ -5,4 +5,4 @@ mkdir -p /var/tmp/rclogs
 for p in "$@"; do (timeout 1800 ./check $p quick > /var/tmp/rclogs/$p.log 2>&1; echo $? > /var/tmp/rclogs/$p.rc) & done; wait
 good=""
 for p in "$@"; do rc=$(cat /var/tmp/rclogs/$p.rc); echo "$p rc=$rc $(grep -c '^VIOLATION' /var/tmp/rclogs/$p.log) viol $(grep -c '^KNOWN' /var/tmp/rclogs/$p.log) known | $(grep -E 'quick:' /var/tmp/rclogs/$p.log | cut -c1-120)"; if [ "$rc" = "0" ]; then good="$good $p"; fi; done
-if [ -n "$good" ]; then /var/tmp/commit_prop.sh $good 2>&1 | grep -v pathspec | tail -2; fi
+if [ -n "$good" ]; then /verif/coord/commit_prop.sh $good 2>&1 | grep -v pathspec | tail -2; fi
